@@ -25,7 +25,10 @@ head = ("| seeded change | property | what was changed | what it needs to manife
 table = head + "\n".join(rows) + "\n"
 n = len(rows)
 ncaught = sum(1 for name in results if any(v == "CAUGHT" for v in results[name].values()))
-summary = "%d seeded changes, %d caught by the check of the property they were written against.\n\n" % (n, ncaught)
+metas = {name: json.load(open(os.path.join(base, name, "meta.json"))) for name in results if os.path.exists(os.path.join(base, name, "meta.json"))}
+nown = sum(1 for name, m in metas.items() if results[name].get(m["property"]) == "CAUGHT")
+summary = ("%d seeded changes: %d caught by at least one of the checks listed in their meta.json, %d of them by the check of the "
+           "property their author named.\n\n" % (n, ncaught, nown))
 open(os.path.join(base, "README.md"), "w").write("# Independently seeded changes\n\nEach directory holds patch.diff (never applied to /repo), demo.py "
      "(passes on the unchanged tree, fails with the change) and meta.json. `python3 tools/seeded.py all` re-runs every change against "
      "its check in a scratch copy.\n\n" + summary + table)
